@@ -1527,8 +1527,9 @@ func antiparallelWitness(m *Model, f *ssa.Function) (bool, string) {
 		// guard form: `if !witness[pair] { continue }` followed, in the same block, by the collection
 		var cond ast.Expr = is.Cond
 		var guarded ast.Node = is.Body
-		if ue, isNot := stripParens(is.Cond).(*ast.UnaryExpr); isNot && ue.Op == token.NOT && is.Else == nil && len(is.Body.List) == 1 {
-			if br, isBr := is.Body.List[0].(*ast.BranchStmt); isBr && br.Tok == token.CONTINUE && br.Label == nil {
+		if ue, isNot := stripParens(is.Cond).(*ast.UnaryExpr); isNot && ue.Op == token.NOT && is.Else == nil && len(is.Body.List) >= 1 {
+			// (the guard's own body may hold what used to be the else branch - the insertion into the witness map - before the continue)
+			if br, isBr := is.Body.List[len(is.Body.List)-1].(*ast.BranchStmt); isBr && br.Tok == token.CONTINUE && br.Label == nil {
 				if _, isIdx := stripParens(ue.X).(*ast.IndexExpr); isIdx {
 					// the statements after the guard in the enclosing block
 					var rest *ast.BlockStmt
